@@ -475,7 +475,7 @@ def run_C14(ctx):
         t += [gen(ctx, b, "hostile_hamt3", ["hostile-gen", "-what", "hamt", "-triples"]),
               gen(ctx, b, "hostile_file3", ["hostile-gen", "-what", "file", "-triples"])]
     ctx.exhaustive = True
-    decide(ctx, b, "TraceHostile", ["Inv_NoPanic", "Inv_C14_Typed_T", "Inv_C14_Substrate"], t,
+    decide(ctx, b, "TraceHostile", ["Inv_NoPanic", "Inv_C14_Typed_T", "Inv_C14_Substrate", "Inv_C14_Addressable"], t,
            extras=["Inv_X_ADLBytes", "Inv_X_ADLBytesLength", "Inv_X_ADLMap"])
 
 
@@ -490,6 +490,10 @@ def run_C13(ctx):
     # beyond the property: the predictive transcription of the sharded-directory reader is total and self-consistent
     # on every two-block table of a small domain (quick ~60 k tables, thorough ~3 M)
     vlib.model_check(ctx, "MCHostile", HOSTILE_CFG % ((1, 1) if q else (1, 2)), name="MCHostile")
+    # ... and the file-reader transcription: total, never inventing bytes, and on every *consistent* table reading
+    # everything succeeds with exactly the declared length (66 k / 4.3 M tables)
+    vlib.model_check(ctx, "FileHostile", "SPECIFICATION Spec\nCONSTANT MaxRootLinks = %d\nINVARIANTS Inv_X_Total Inv_X_ConsistentReads "
+                     "Inv_X_NoInventedBytes\nCHECK_DEADLOCK FALSE\n" % (1 if q else 2), name="FileHostile")
     vlib.model_check(ctx, "Codec", cfg_codec(1, 0, False, ["none", "packed1"], MUTS_ALL, export=False), name="Codec_malformed")
     t = [hgen(ctx, b, "reify"), hgen(ctx, b, "hamt"), hgen(ctx, b, "file"), hgen(ctx, b, "dir")]
     if not q:
